@@ -24,7 +24,7 @@ Lemma w_seal_total_hypotheses :
   (forall k1 k2, named w_s1 k1 -> named w_s1 k2 -> poolkey_code k1 = poolkey_code k2 -> k1 = k2) /\
   Good w_s1 /\
   (forall k p, builtin k -> get_pool w_s1 k = Some p -> live p) /\
-  (forall k, builtin k -> forall s2 s3 p3,
+  (forall k, builtin k -> is_Some (get_pool (create_builtins w_s1) k) -> forall s2 s3 p3,
      process_swaps (create_builtins w_s1) = Ok s2 -> process_deposits w_oracle s2 = Ok s3 -> get_pool s3 k = Some p3 ->
      sat_sum (map (fun t => cd_value (out0 t)) (txs_for_pool (List.filter (is_withdraw_request w_oracle s3) (sorted_txs s3)) k)) < p_liqs p3) /\
   (s_height w_s1 - TIP_909_HEIGHT) / 1000000 < 128 /\
@@ -34,7 +34,7 @@ Proof.
   - intros k1 k2 H1 H2 E. apply w_s1_named in H1, H2.
     destruct H1 as [-> | [-> | ->]], H2 as [-> | [-> | ->]]; try reflexivity; vm_compute in E; discriminate.
   - intros k p Hb E. exfalso. destruct Hb as [-> | [-> | ->]]; vm_compute in E; discriminate.
-  - intros k Hb s2 s3 p3 H2 H3 Ep.
+  - intros k Hb _ s2 s3 p3 H2 H3 Ep.
     vm_compute in H2. injection H2 as <-. vm_compute in H3. injection H3 as <-.
     destruct Hb as [-> | [-> | ->]]; vm_compute in Ep; injection Ep as <-; vm_compute; reflexivity.
   - vm_compute. reflexivity.
